@@ -359,6 +359,9 @@ class EList(ECollection, list):
 
     def __setitem__(self, i, y):
         is_collection = isinstance(y, Iterable)
+        if isinstance(i, slice) and not is_collection:
+            # the list refuses it (TypeError), before anything is reported
+            list(self).__setitem__(i, y)
         if isinstance(i, slice) and is_collection:
             # what comes in is walked once (a generator, a set), and a slice
             # the list would refuse (an extended slice of another size) is
